@@ -9,7 +9,7 @@ from .world import FUNCS
 # rough upper bounds of traced library lines per operation kind, used only to
 # place line faults (a fault placed beyond the end simply does not fire and is
 # counted as such)
-LMAX = {"call": 900, "inverse": 700, "backward": 700, "construct": 120, "load": 25,
+LMAX = {"roundtrip": 1500, "call": 900, "inverse": 700, "backward": 700, "construct": 120, "load": 25,
         "func": 150, "restart": 120}
 
 IO_FAMILIES = ("dtf", "dti", "scat", "scat2")
@@ -34,15 +34,15 @@ def _logu(rng, lo, hi):
 
 
 BASE_MIX = {
-    "C15": {"call": 6, "inverse": 3, "backward": 3.5, "construct": 2, "convert": 0.5,
+    "C15": {"call": 5, "inverse": 4, "backward": 4, "construct": 2, "convert": 0.5,
             "restart": 0.6, "drop": 0.3, "forget": 0.3, "mutate_output": 0.8, "load": 0.8,
-            "set_default_dtype": 0.4, "func": 1.2},
+            "set_default_dtype": 0.4, "func": 1.2, "roundtrip": 1.5},
     "C16": {"call": 6, "inverse": 3, "backward": 1.0, "construct": 2, "convert": 4,
             "restart": 1.5, "drop": 0.2, "forget": 0.1, "mutate_output": 0.2, "load": 0.0,
-            "set_default_dtype": 2.0, "func": 0.0},
+            "set_default_dtype": 2.0, "func": 0.0, "roundtrip": 1.0},
     "C18": {"call": 0.6, "inverse": 0.0, "backward": 0.0, "construct": 3, "convert": 0.0,
             "restart": 0.3, "drop": 0.3, "forget": 0.0, "mutate_output": 0.0, "load": 9,
-            "set_default_dtype": 0.2, "func": 0.0},
+            "set_default_dtype": 0.2, "func": 0.0, "roundtrip": 0.0},
 }
 
 
@@ -117,6 +117,35 @@ def gen_plan(profile, seed):
     kinds = sorted(mix)
     weights = [mix[k] for k in kinds]
     dtypes_seen = ["float32", "float64"]
+    have = set(range(len(slots))) if prologue else set()
+
+    def need(c, prog, s):
+        """without a prologue, usually construct a slot before first using it"""
+        if s not in have and rng.random() < 0.85:
+            prog.append(construct_op(s))
+            have.add(s)
+
+    def emit_call(c, prog, s, force_rg=False):
+        need(c, prog, s)
+        fam = slots[s]
+        spec = catalog.gen_input_spec(fam, cur_params.get(s, {}), rng, small=knobs["small"])
+        # mostly feed the module the precision it is (statically) in
+        sd = slot_dtype.get(s, "float32")
+        spec["dtype"] = sd if rng.random() < 0.9 else \
+            ("float64" if sd == "float32" else "float32")
+        nreg[0] += 1
+        r = "r%d" % nreg[0]
+        rg = force_rg or rng.random() < 0.6
+        gm = _wchoice(rng, [("ambient", 0.6), ("no_grad", 0.15), ("inference", 0.1),
+                            ("enable_grad", 0.15)])
+        if force_rg:
+            gm = "ambient"
+        prog.append({"op": "call", "id": new_id(), "slot": s, "arg": spec,
+                     "requires_grad": rg, "grad_mode": gm, "out": r,
+                     "i6": rng.random() < 0.3})
+        regs[c].append((r, fam, "fwd", rg and gm in ("ambient", "enable_grad")))
+        return r, fam
+
     for c in range(n_clients):
         n_ops = max(2, n_ops_total // n_clients + rng.randrange(-1, 2))
         prog = programs[c]
@@ -124,32 +153,43 @@ def gen_plan(profile, seed):
             k = rng.choices(kinds, weights)[0]
             fwd_slots = [i for i, f in enumerate(slots) if f in catalog.INPUT_RANK]
             inv_slots = [i for i, f in enumerate(slots) if f in catalog.FWD_OF]
-            if k == "construct" or (not prologue and not any(o["op"] == "construct" for o in prog)):
-                prog.append(construct_op(rng.randrange(len(slots))))
+            if k == "construct":
+                cs = rng.randrange(len(slots))
+                have.add(cs)
+                prog.append(construct_op(cs))
             elif k == "call":
-                s = _pick(rng, fwd_slots)
+                emit_call(c, prog, _pick(rng, fwd_slots))
+            elif k == "roundtrip":
+                pairs = [(i, j) for i in fwd_slots for j in inv_slots
+                         if catalog.INV_OF.get(slots[i]) == slots[j]]
+                if not pairs:
+                    continue
+                s, s2 = _pick(rng, pairs)
+                need(c, prog, s)
+                need(c, prog, s2)
                 fam = slots[s]
                 spec = catalog.gen_input_spec(fam, cur_params.get(s, {}), rng, small=knobs["small"])
-                # mostly feed the module the precision it is (statically) in
                 sd = slot_dtype.get(s, "float32")
                 spec["dtype"] = sd if rng.random() < 0.9 else \
                     ("float64" if sd == "float32" else "float32")
                 nreg[0] += 1
                 r = "r%d" % nreg[0]
-                rg = rng.random() < 0.6
-                gm = _wchoice(rng, [("ambient", 0.6), ("no_grad", 0.15), ("inference", 0.1),
-                                    ("enable_grad", 0.15)])
-                prog.append({"op": "call", "id": new_id(), "slot": s, "arg": spec,
-                             "requires_grad": rg, "grad_mode": gm, "out": r,
-                             "i6": rng.random() < 0.3})
-                regs[c].append((r, fam, "fwd", rg and gm in ("ambient", "enable_grad")))
+                gm = _wchoice(rng, [("ambient", 0.7), ("no_grad", 0.15), ("enable_grad", 0.15)])
+                rg = rng.random() < 0.7
+                prog.append({"op": "roundtrip", "id": new_id(), "slot": s, "slot2": s2, "arg": spec,
+                             "requires_grad": rg, "grad_mode": gm, "out": r})
+                regs[c].append((r, fam, "rt", rg and gm in ("ambient", "enable_grad")))
             elif k == "inverse":
                 cands = [(r, f) for (r, f, kd, _) in regs[c] if kd == "fwd" and f in catalog.INV_OF
                          and catalog.INV_OF[f] in slots]
                 if not cands:
-                    continue
+                    withinv = [i for i in fwd_slots if catalog.INV_OF.get(slots[i]) in slots]
+                    if not withinv:
+                        continue
+                    cands = [emit_call(c, prog, _pick(rng, withinv))]
                 r, f = _pick(rng, cands)
                 s = _pick(rng, [i for i in inv_slots if slots[i] == catalog.INV_OF[f]])
+                need(c, prog, s)
                 nreg[0] += 1
                 out = "r%d" % nreg[0]
                 mask = None
@@ -170,7 +210,7 @@ def gen_plan(profile, seed):
             elif k == "backward":
                 cands = [r for (r, f, kd, rg) in regs[c] if rg]
                 if not cands:
-                    continue
+                    cands = [emit_call(c, prog, _pick(rng, fwd_slots), force_rg=True)[0]]
                 prog.append({"op": "backward", "id": new_id(), "handle": _pick(rng, cands),
                              "seed": rng.randrange(1 << 30), "retain": rng.random() < 0.4,
                              "out_mask": rng.randrange(0, 256) if rng.random() < 0.4 else 0,
@@ -184,7 +224,9 @@ def gen_plan(profile, seed):
                 prog.append({"op": "restart", "id": new_id(), "slot": rng.randrange(len(slots)),
                              "how": _pick(rng, ["deepcopy", "pickle", "state_dict"])})
             elif k == "drop":
-                prog.append({"op": "drop", "id": new_id(), "slot": rng.randrange(len(slots))})
+                ds = rng.randrange(len(slots))
+                have.discard(ds)
+                prog.append({"op": "drop", "id": new_id(), "slot": ds})
             elif k == "forget":
                 if regs[c]:
                     r = regs[c].pop(rng.randrange(len(regs[c])))
@@ -267,7 +309,11 @@ def gen_fault(rng, profile, c, o, slots):
                                        and slots[o["slot"]] in IO_FAMILIES)
     if io_capable:
         w = 6 if profile == "C18" else 2
-        kind_pool += [("io_open", w), ("io_read", w), ("io_eof", w), ("io_flip", w)]
+        kind_pool += [("io_open", w), ("io_read", w), ("io_eof", w)]
+        if profile == "C18":
+            # an inverted stored byte is modelled as persistent for the run and
+            # judged with the table-specific relaxation of tables.py
+            kind_pool += [("io_flip", w)]
     kind = _wchoice(rng, kind_pool)
     f = {"client": c, "op_id": o["id"], "kind": kind}
     if kind == "op_error":
@@ -285,3 +331,76 @@ def gen_fault(rng, profile, c, o, slots):
         f["at"] = 1 if rng.random() < 0.8 else 2
         f["arg"] = rng.randrange(1 << 20)
     return f
+
+
+# ---------------------------------------------------------------------------
+# C18: systematic single-fault enumeration (labelled as enumeration, reported
+# separately from the seeded search)
+
+def table_sizes():
+    """{name: (bytes, stream calls of one fault-free load)} measured on the
+    current tree through the library's own resource lookup."""
+    from . import env, seams
+    L = seams.fresh_library(patch_stream=False)
+    out = {}
+
+    class Cnt:
+        io_enabled = True
+        n = 0
+
+        def on_io(self, what, name):
+            self.n += 1
+
+        def on_open(self, name):
+            return None
+    for nm in tables.ALL_NAMES:
+        with L.orig_resource_stream("pytorch_wavelets.dtcwt.data", nm + ".npz") as f:
+            data = f.read()
+        c = Cnt()
+        st = seams.FaultyStream(data, c, nm)
+        import numpy as np
+        with st as f:
+            dict(np.load(f))
+        out[nm] = (len(data), c.n)
+    return out
+
+
+def sweep_plans(tier, sizes=None):
+    """Explicit single-client plans: one faulted load, then fault-free loads
+    of the same table through every entry point that defines it (the harness
+    adds the I5/T5 retry and the end-of-run load of every table)."""
+    sizes = sizes or table_sizes()
+    stride = {"quick": 41, "thorough": 1}[tier]
+    plans = []
+    idx = [0]
+
+    def plan(nm, fault, tag):
+        lds = [ld for ld in tables.LOADERS if tables.expected(ld, nm)[0] == "ok"]
+        first = lds[idx[0] % len(lds)]
+        prog = [{"op": "load", "id": 1, "loader": first, "name": nm}]
+        for j, ld in enumerate(lds):
+            prog.append({"op": "load", "id": 2 + j, "loader": ld, "name": nm})
+        f = dict(fault, client=0, op_id=1)
+        idx[0] += 1
+        return {"version": 1, "profile": "C18", "property": "C18", "seed": -idx[0],
+                "sweep": tag, "knobs": {"n_clients": 1, "policy": "boundary", "switch_prob": 0.0},
+                "slots": [], "programs": [prog], "faults": [f], "schedule": []}
+    k = 0
+    for nm in tables.ALL_NAMES:
+        nbytes, nio = sizes[nm]
+        for exc in ("FileNotFoundError", "PermissionError", "EMFILE"):
+            plans.append(plan(nm, {"kind": "io_open", "exc": exc, "at": 1}, "io_open"))
+        for at in range(1, nio + 2):
+            k += 1
+            if tier == "thorough" or k % 7 == 0:
+                plans.append(plan(nm, {"kind": "io_read", "at": at}, "io_read"))
+        for off in range(0, nbytes):
+            k += 1
+            if k % stride == 0:
+                plans.append(plan(nm, {"kind": "io_eof", "at": 1, "arg": off}, "io_eof"))
+        for off in range(0, nbytes):
+            for bit in (0, 7):
+                k += 1
+                if k % stride == 0:
+                    plans.append(plan(nm, {"kind": "io_flip", "at": 1, "arg": off * 8 + bit}, "io_flip"))
+    return plans
